@@ -29,6 +29,8 @@ EXPLANATION = (
     'statements around it evaluated on the constants) on every delimiter pair x every foreign delimiter character x four '
     'positions, and on mixed-case keys. Not decided: tokenisation of whole lines (semicolon splitting, optional '
     'parentheses/commas).')
+EXPLANATION_ADDED = (" (R8, which replaces the structural R1/R2/R5) the raw parser is partially evaluated on about 45 probe documents: frame persistence and requirement, every unsupported frame/shape keyword, include sign, global/own metadata precedence, composite metadata, comment lines (a comment runs to the end of the line, semicolons included), letter case and separators; (R4 also) ellipse/box without the optional angle; the coordinate lexer is told each token's own parameter index; (R3 also) the dispatcher in front of the lexers is probed; (R7) shape lines are split into parameter and metadata strings on probe lines.")
+EXPLANATION += EXPLANATION_ADDED
 TRUSTED = ['astropy Angle(str, unit) / Quantity(float, unit) parse as documented', 'str.split/strip/lower']
 ASSUMPTIONS = ['lines reach the raw parser one statement at a time (splitting is not decided)']
 
